@@ -94,6 +94,7 @@ pub fn run(c: &SchedCase) -> ExecOutcome {
     let mut results: u64 = 0;
     let mut all: Vec<Vec<Rec>> = Vec::new();
     let mut removed = false;
+    let mut late: Vec<Arc<TaskShared>> = Vec::new();
     std::thread::scope(|s| {
         let mut hs = Vec::new();
         for t in 0..k {
@@ -142,6 +143,16 @@ pub fn run(c: &SchedCase) -> ExecOutcome {
                 break;
             }
             iters += 1;
+            if !drop_early && iters % 3 == 0 && late.len() < 3 {
+                // schedule more work while earlier tasks have completed and others are still pending
+                // (holes in the executor's task table)
+                let t = Arc::new(TaskShared { id: 100 + late.len() as u64, polls: AtomicU32::new(0), done_after: 1 + (iters as u32 % 2), waker: Mutex::new(None), dropped: AtomicU32::new(0) });
+                hookrec::record(H_SCHEDULE, t.id, 0);
+                if sched.schedule(SFut { sh: t.clone() }).is_err() {
+                    o.alarm("schedule", "schedule-refused", "schedule() on a live executor failed".into());
+                }
+                late.push(t);
+            }
             if drop_early && !removed && iters >= 2 {
                 // the executor goes away while wakers are active
                 h.remove(token);
@@ -212,6 +223,13 @@ pub fn run(c: &SchedCase) -> ExecOutcome {
             hookrec::merge(v)
         };
         all.push(loop_recs);
+        for t in &late {
+            if let Some(w) = t.waker.lock().unwrap().clone() {
+                hookrec::record(H_WAKE_BEGIN, t.id, 0xffff);
+                w.wake();
+                hookrec::record(H_WAKE_END, t.id, 0xffff);
+            }
+        }
         let unserved = unserved_wakes(&so_far);
         let before_polls: u32 = tasks.iter().map(|t| t.polls.load(Ordering::SeqCst)).sum();
         let t = Instant::now();
